@@ -30,15 +30,25 @@ ASSUMPTIONS = ["operations of a history do not overlap", "answer delays are off 
 IP, PORT = "10.0.0.8", 6444
 CMD = bytes.fromhex("aa21ac8d000000000003418100ff03ff000200000000000000000000000003016971")
 DELAYS = [None, 0.01, 1.0, 1.9, 2.1, 3.0, 4.5]
+DELAYS_T = [None, 0.01, 0.5, 1.0, 1.9, 1.999, 2.001, 2.1, 3.0, 3.999, 4.5, 5.9, 6.1]
 
 
 def bounds(tier):
-    return {"retries": [1, 2, 3, 4], "delay_alphabet": DELAYS, "fault_depth": 2, "protocols": [2, 3],
+    return {"retries": [1, 2, 3, 4], "delay_alphabet": DELAYS_T if tier == "thorough" else DELAYS,
+            "fault_depth": 3 if tier == "thorough" else 2, "protocols": [2, 3],
             "starts": ["cold", "warm", "closed", "expired"]}
 
 
 def shards(tier):
     out = []
+    if tier == "thorough":
+        for v in (2, 3):
+            for r in (1, 2, 3):
+                for part in range(4):
+                    out.append(("AT", v, r, part, 4))
+            for start in range(4 if v == 3 else 3):
+                for part in range(8):
+                    out.append(("B3", v, start, part, 8))
     for v in (2, 3):
         for r in (1, 2, 3):
             out.append(("A", v, r, 0, 1))
@@ -110,9 +120,9 @@ def exec_A(version, r, delays, via_refresh=False):
         w.close()
 
 
-def run_A(st: Stats, version, r, part, nparts, via_refresh=False):
+def run_A(st: Stats, version, r, part, nparts, via_refresh=False, alphabet=None):
     det = Determinism(first=3, every=307)
-    for idx, delays in enumerate(product(DELAYS, repeat=r)):
+    for idx, delays in enumerate(product(alphabet or DELAYS, repeat=r)):
         if idx % nparts != part:
             continue
         case = {"part": "A", "version": version, "retries": r, "delays": list(delays), "refresh": via_refresh}
@@ -286,10 +296,12 @@ def cancel_points(version, start, seq, op):
     return base
 
 
-def run_B(st: Stats, version, start, part, nparts):
+def run_B(st: Stats, version, start, part, nparts, triples=False):
     det = Determinism(first=3, every=101)
     fl = faults(version)
     seqs = [[f] for f in fl] + [[f, g] for f in fl for g in fl]
+    if triples:
+        seqs = [[f, g, h] for f in fl for g in fl for h in fl]
     idx = 0
 
     def one(seq, cancel_spec, label):
@@ -356,6 +368,9 @@ def run_B(st: Stats, version, start, part, nparts):
                 pts.append((a + b) / 2)
         return pts
 
+    if triples:
+        st.reruns += det.reruns
+        return
     for t in instants_of([None], 0):
         one([("cancel", 0)], {0: t}, "cancel")
         for g in fl:
@@ -373,6 +388,10 @@ def run_shard(shard, tier) -> Stats:
     kind, version, a, part, nparts = shard
     if kind == "A":
         run_A(st, version, a, part, nparts)
+    elif kind == "AT":
+        run_A(st, version, a, part, nparts, alphabet=DELAYS_T)
+    elif kind == "B3":
+        run_B(st, version, a, part, nparts, triples=True)
     elif kind == "Aref":
         run_A(st, version, 3, 0, 1, via_refresh=True)
     else:
